@@ -88,6 +88,26 @@ def program(draw, cfg: G.GenCfg, open_block_1_in: int = 4, force_trailing_1_in: 
     return tree
 
 
+# Known finding (C02 `interrupt-in-repeated-body:once-and-in-order`, C05 `interrupt-in-repeated-body:block-bookkeeping`):
+# a Watch/Alarm declared inside an Alarm or Macro body misbehaves as soon as that body runs again.  It would be the first
+# violation in 5-10 % of the cases and hide everything after it, so it is excluded by construction in 7 of 8 cases (the
+# nested interrupt is replaced by a Mark; counted as class excluded_known:interrupt-in-repeated-body) and kept in 1 of 8.
+EXCLUDE_KNOWN_INTERRUPT_IN_REPEATED_BODY = True
+KEEP_NESTED_1_IN = 8
+
+
+def _strip_nested_interrupts(nodes, in_repeated: bool) -> int:
+    n_rep = 0
+    for i, n in enumerate(nodes):
+        if n["k"] in INTERRUPTS and in_repeated:
+            nodes[i] = {"k": "mark", "t": None}
+            n_rep += 1
+            continue
+        if "c" in n:
+            n_rep += _strip_nested_interrupts(n["c"], in_repeated or n["k"] in ("alarm", "macro"))
+    return n_rep
+
+
 def _fix_bodies(nodes):
     """Every scope opener is directly followed by an instruction of its body (an opener without body, or with a body
     that begins with blank/comment lines, is the C17 subject `empty-body-opener-captures-next-line`, not ours)."""
@@ -100,7 +120,7 @@ def _fix_bodies(nodes):
 
 
 @st.composite
-def cases(draw, cfg: G.GenCfg, ticks: int, append_1_in: int = 3):
+def cases(draw, cfg: G.GenCfg, ticks: int, append_1_in: int = 5):
     append = draw(st.integers(1, append_1_in)) == 1
     if append:
         # the append follow-up is defined for interrupt-free methods only (see append_position)
@@ -109,10 +129,29 @@ def cases(draw, cfg: G.GenCfg, ticks: int, append_1_in: int = 3):
         tree = draw(program(dataclasses.replace(cfg, kinds=kinds), force_trailing_1_in=1, open_block_interrupt=False))
     else:
         tree = draw(program(cfg))
+    excluded = 0
+    if EXCLUDE_KNOWN_INTERRUPT_IN_REPEATED_BODY and draw(st.integers(1, KEEP_NESTED_1_IN)) != 1:
+        excluded = _strip_nested_interrupts(tree["body"], False)
+        _fix_bodies(tree["body"])
     traj = draw(G.trajectory(ticks, max_changes=8))
     # start values of the inputs (so that conditions can be true from the first tick)
     init = {t: float(draw(st.sampled_from([0, 0, 1, 3, 5, 9]))) for t in ("In1", "In2", "Temp")}
-    return {"tree": tree, "traj": traj, "init": init, "ticks": ticks, "append": append}
+    # half of the Watch/Alarm conditions are rewritten to hold for the start value of their tag (in the tag's own unit),
+    # so that interrupt bodies run in a useful fraction of the cases; the trajectory may still switch them off and on
+    def likely(nodes):
+        for n in nodes:
+            if n["k"] in INTERRUPTS and draw(st.booleans()):
+                tag = n["cond"]["tag"]
+                n["cond"] = {"tag": tag, "op": draw(st.sampled_from(["=", "<=", ">=", "<", ">"])), "unit": G.UNITS_FOR[tag][0],
+                             "val": int(init[tag])}
+                if n["cond"]["op"] == "<":
+                    n["cond"]["val"] += 1
+                elif n["cond"]["op"] == ">":
+                    n["cond"]["val"] = max(0, n["cond"]["val"] - 1)
+            if "c" in n:
+                likely(n["c"])
+    likely(tree["body"])
+    return {"tree": tree, "traj": traj, "init": init, "ticks": ticks, "append": append, "excluded_nested": excluded}
 
 
 def valid_case(case) -> bool:
@@ -237,17 +276,19 @@ class Prog:
         return False
 
     def nested_interrupt_in_alarm(self, lid) -> bool:
-        """the line is, or lies inside, a Watch/Alarm that is itself declared inside an Alarm body"""
+        """the line is, or lies inside, a Watch/Alarm that is itself declared inside a body that runs repeatedly
+        (Alarm body, Macro body): the next invocation of that body resets the run-time state of the nested interrupt
+        while its handler from the previous invocation may still be alive"""
         chain = [lid] + self.anc[lid]
         for i, a in enumerate(chain):
-            if self.kind(a) in INTERRUPTS and any(self.kind(b) == "alarm" for b in chain[i + 1:]):
+            if self.kind(a) in INTERRUPTS and any(self.kind(b) in ("alarm", "macro") for b in chain[i + 1:]):
                 return True
         return False
 
     def label(self, lid, kind=None) -> str:
         """signature context: the structural situation of the line (root-cause oriented, not kind oriented)"""
         if self.nested_interrupt_in_alarm(lid):
-            return "interrupt-nested-in-alarm"
+            return "interrupt-in-repeated-body"
         rep = self.repeater(lid)
         k = kind if kind is not None else self.kind(lid)
         return k + ((":in-" + rep) if rep else "")
@@ -443,7 +484,7 @@ def analyse(tr: Trace):
     # Only the FIRST violation (in event order) of each property is reported per case: after a violation the
     # interpreter state is undefined and everything later is a cascade (e.g. a command issued twice with one instance
     # id confuses the command manager, which then restarts an unrelated command).  A violation labelled
-    # `interrupt-nested-in-alarm` (C02 mechanism: the re-arming Alarm resets nested interrupts that are still alive,
+    # `interrupt-in-repeated-body` (C02 mechanism: the re-arming Alarm resets nested interrupts that are still alive,
     # their bodies then run twice / are skipped) also ends the judged part for C05.
     cur = [0]
     stop = {"v2": None, "v5": None}
@@ -452,25 +493,25 @@ def analyse(tr: Trace):
         which = "v2" if lst is v2 else "v5"
         if stop[which] is not None:
             return
-        if "interrupt-nested-in-alarm" in sig:
+        if "interrupt-in-repeated-body" in sig:
             # one signature per property for the whole structural class (mechanism: the re-arming Alarm resets the run-time
             # state of everything in its body while interrupts / blocks started from that body are still alive)
             msg = "%s  [%s]" % (msg, sig)
-            sig = "interrupt-nested-in-alarm:" + ("once-and-in-order" if which == "v2" else "block-bookkeeping")
+            sig = "interrupt-in-repeated-body:" + ("once-and-in-order" if which == "v2" else "block-bookkeeping")
         lst.append((sig, msg))
         stop[which] = cur[0]
-        if "interrupt-nested-in-alarm" in sig and stop["v5"] is None:
+        if "interrupt-in-repeated-body" in sig and stop["v5"] is None:
             stop["v5"] = cur[0]
-            info["classes"].add("c05-judged-until:interrupt-nested-in-alarm")
+            info["classes"].add("c05-judged-until:interrupt-in-repeated-body")
 
     def txt(lid):
         return "%s %r" % (lid, prog.byid[lid].text.strip())
 
     def nia(lid):
-        return ":interrupt-nested-in-alarm" if prog.nested_interrupt_in_alarm(lid) else ""
+        return ":interrupt-in-repeated-body" if prog.nested_interrupt_in_alarm(lid) else ""
 
     def nia_any(lids):
-        return ":interrupt-nested-in-alarm" if any(prog.nested_interrupt_in_alarm(x) for x in lids) else ""
+        return ":interrupt-in-repeated-body" if any(prog.nested_interrupt_in_alarm(x) for x in lids) else ""
 
     def ended_block_of(lid):
         """an enclosing block of the line that has started and is not active (ended), else None"""
@@ -490,6 +531,8 @@ def analyse(tr: Trace):
     reg_in: dict = {}                  # interrupt line -> {enclosing block: its invocation number} at the time of its last registration
     rearm: set = set()                 # alarms that completed a body and will re-register themselves
 
+    first_exec_inst: dict = {}         # (line, pc) -> instance id of the first exec call (effect channel)
+
     def on_start(ch, lid, ei, tick, inst=None):
         info["starts"] += 1
         kind = prog.kind(lid)
@@ -508,13 +551,21 @@ def analyse(tr: Trace):
         if par is not None:
             pk = prog.kind(par)
             if pc == 0:
-                add(v2, "child-before-parent:%s" % ("interrupt-nested-in-alarm" if lab == "interrupt-nested-in-alarm" else pk), "[%s] tick %d: %s started although its enclosing %s %s has not started"
+                add(v2, "child-before-parent:%s" % ("interrupt-in-repeated-body" if lab == "interrupt-in-repeated-body" else pk), "[%s] tick %d: %s started although its enclosing %s %s has not started"
                     % (ch, tick, txt(lid), pk, txt(par)))
             elif pk == "macro" and cx.started_calls.get(par, 0) <= 0:
                 add(v2, "macro-line-outside-call", "[%s] tick %d: %s (body of %s) started while no call of the macro is in progress"
                     % (ch, tick, txt(lid), txt(par)))
         # S1: at most once per invocation of the enclosing scope
         key = (lid, pc)
+        if ch == "E" and kind in COMMANDS and key in seen[ch] and first_exec_inst.get(key) == inst and inst is not None:
+            # the interpreter issued the command once; the engine ran the SAME command instance from iteration 0 again
+            add(v2, "engine-restarted-command-instance", "[E] tick %d: the command of %s (instance %s) executed its first iteration again "
+                "(first at tick %d) although the interpreter issued it once -- the engine re-created a cancelled/finalized command"
+                % (tick, txt(lid), str(inst)[-4:], seen[ch][key][1]))
+            return
+        if ch == "E" and kind in COMMANDS and key not in seen[ch]:
+            first_exec_inst[key] = inst
         if key in seen[ch]:
             add(v2, "dup-start:%s" % lab, "[%s] tick %d: %s started again (first at tick %d) within the same invocation #%d of %s"
                 % (ch, tick, txt(lid), seen[ch][key][1], pc, txt(par) if par else "the method"))
@@ -525,7 +576,7 @@ def analyse(tr: Trace):
         si = prog.sib[lid]
         if mk in maxsib[ch] and maxsib[ch][mk][0] > si:
             other = maxsib[ch][mk][1]
-            add(v2, "order:%s" % (lab if lab == "interrupt-nested-in-alarm" else "%s-after-later-%s" % (lab, prog.kind(other))),
+            add(v2, "order:%s" % (lab if lab == "interrupt-in-repeated-body" else "%s-after-later-%s" % (lab, prog.kind(other))),
                 "[%s] tick %d: %s started after the later sibling %s had started" % (ch, tick, txt(lid), txt(other)))
         else:
             maxsib[ch][mk] = (si, lid)
@@ -535,9 +586,16 @@ def analyse(tr: Trace):
             return
         pk = prog.kind(p)
         pkey = (p, pc)
-        plab = "interrupt-nested-in-alarm" if (lab == "interrupt-nested-in-alarm" or prog.nested_interrupt_in_alarm(p)) else prog.label(p)
+        if pk == "callmacro" and prog.macro.get(prog.byid[p].payload) in cx.concurrent:
+            # the call joined a call of the same macro that was in progress on another thread: it gets no run-log `started`
+            info["classes"].add("macro-concurrent-call")
+            return
+        plab = "interrupt-in-repeated-body" if (lab == "interrupt-in-repeated-body" or prog.nested_interrupt_in_alarm(p)) \
+            else prog.label(p, "command" if pk in COMMANDS else None)
         if ch == "E":
-            if pk in ("mark", "notify", "block") + COMMANDS and prog.byid[p].payload is not None and pk != "info":
+            # (a command predecessor may legitimately never execute: a same-name / overlapping request issued in the same
+            #  tick by another thread cancels it before its first iteration -- so only Mark / Notify / Block are required)
+            if pk in ("mark", "notify", "block") and prog.byid[p].payload is not None:
                 if pkey not in seen["E"]:
                     add(v2, "pred-no-effect:%s" % plab, "[E] tick %d: %s produced its effect although the instruction before it, %s, never produced one in this invocation"
                         % (tick, txt(lid), txt(p)))
@@ -656,7 +714,7 @@ def analyse(tr: Trace):
             if e[4] == "exec" and e[6] == 0:
                 lid = prog.cmd.get((e[2], e[5]))
                 if lid:
-                    on_start("E", lid, ei, tick)
+                    on_start("E", lid, ei, tick, "E:" + str(e[3]))
         elif k == "scope_start":
             if e[2] in ("Watch", "Alarm") and e[3] in prog.byid:
                 lid = e[3]
